@@ -617,6 +617,7 @@ def latedir_case(item):
     its parent (link -> real): link/new/x.t and real/new/x.t are one target - one record, one lock, one build - before the
     directory exists as well as afterwards."""
     _, pair, mode, j, seed = item
+    mid = 'new' if seed % 2 == 0 else 'new/deeper/still'      # one missing level, or three
     pj = scen.Project({}, 'c15l')
     top = os.path.realpath(pj.top)
     anoms = []
@@ -627,8 +628,8 @@ def latedir_case(item):
         common.write_file(os.path.join(top, 'src'), 'v0\n')
         common.write_file(os.path.join(top, 'default.t.do'), 'mkdir -p "$(dirname "$3")"\n' + DO % 3 + 'sleep 0.3\n')
         env_extra = {'RV_TOP': top}
-        sp = [('through-link', 'link/new/x.t'), ('real-name', 'real/new/x.t'), ('absolute-through-link', posixpath.join(top, 'link/new/x.t')),
-              ('absolute-real-name', posixpath.join(top, 'real/new/x.t')), ('dot-slash-link', './link/new/x.t'), ('link-detour', 'link/../link/new/x.t')]
+        sp = [('through-link', 'link/%s/x.t' % mid), ('real-name', 'real/%s/x.t' % mid), ('absolute-through-link', posixpath.join(top, 'link/%s/x.t' % mid)),
+              ('absolute-real-name', posixpath.join(top, 'real/%s/x.t' % mid)), ('dot-slash-link', './link/%s/x.t' % mid), ('link-detour', 'link/../link/%s/x.t' % mid)]
         a, b = sp[pair[0] % len(sp)], sp[pair[1] % len(sp)]
 
         def note(r, argv):
@@ -661,10 +662,10 @@ def latedir_case(item):
             anoms.append(dict(key='builds-not-one:late-directory', what='%d executions for %s and %s (%s): one file whose directory did not exist yet, named through a symlinked parent'
                               % (n, a[0], b[0], mode)))
         if not anoms and os.path.exists(os.path.join(top, '.redo', 'db.sqlite3')):
-            hit, names = rows_for(top, 'real/new/x.t')
+            hit, names = rows_for(top, 'real/%s/x.t' % mid)
             obs['files_rows_seen'] = len(names)
             if len(hit) != 1:
-                anoms.append(dict(key='records-not-one:late-directory', what='%d Files rows denote real/new/x.t: %s (spellings %s, %s; %s)' % (len(hit), hit, a[0], b[0], mode)))
+                anoms.append(dict(key='records-not-one:late-directory', what='%d Files rows denote real/%s/x.t: %s (spellings %s, %s; %s)' % (len(hit), mid, hit, a[0], b[0], mode)))
     except TimeoutError:
         return dict(verdict='inconclusive', why='watchdog without stuck witness', sample=dict(item=list(item)))
     finally:
